@@ -102,4 +102,14 @@ Section Model.
     +f l2 *f gsum rank (fun i => fsq (mget V i c)).
   Definition hals_obj (G B V : mat) (l1 l2 : F) (rank ncols : nat) : F :=
     gsum ncols (fun c => hals_col_obj G B V l1 l2 rank c).
+
+  (* ---------------- generic (ridge) least-squares block with several right-hand sides ----------------
+     used for the blocks of tensor_ring_als (design matrix = reshaped sub-chain), the ridge ALS of the
+     CP / Tucker regressors and the coupled matrix-tensor ALS: the design matrix is captured from the
+     implementation, the linear solver (lstsq / solve / pinv) is an oracle *)
+  Definition ls_pred (A X : mat) (n i c : nat) : F := gsum n (fun t => mget A i t *f mget X t c).
+  Definition ls_obj_m (A Y X : mat) (lam : F) (m n p : nat) : F :=
+    gsum p (fun c => gsum m (fun i => fsq (mget Y i c -f ls_pred A X n i c)) +f lam *f gsum n (fun j => fsq (mget X j c))).
+  Definition ls_normal_lhs (A Y X : mat) (m n j c : nat) : F :=
+    gsum m (fun i => mget A i j *f (mget Y i c -f ls_pred A X n i c)).
 End Model.
